@@ -388,7 +388,60 @@ fn number_pad_keys_are_characters(run: &Run) {
     );
 }
 
+/// A key that produces no character (number-pad Enter) pressed in the middle of a word types nothing: what is returned
+/// for it is what was returned for the key before it, and the word goes on as if it had not been pressed.  List off (the
+/// single string), list on, list + English; the context has shown other words before.
+fn characterless_key_inside_a_word(run: &Run) {
+    let words = ["ko", "ami", "(a)", "sesh.", "rZ", "k", "x`y", "100", "\"ami"];
+    let items: Vec<(usize, usize)> = (0..words.len()).flat_map(|w| (0..3usize).map(move |o| (w, o))).collect();
+    let enter = keys().by_name("KP_ENTER").map(|k| k.code).unwrap_or(0);
+    run.exhaustive(
+        "a-key-without-a-character-inside-a-word",
+        &items,
+        |_| Sandbox::new(),
+        |&(wi, oi), st, sb| {
+            let opts = Opts::parse(["q", "sq", "sqe"][oi]);
+            let case = || json!({"characterless_key": {"word": words[wi], "opts": opts.letters()}});
+            let pf = |p: crate::driver::PanicInfo| Failure::new(panic_kind(&p), p.to_string(), case());
+            let mut on = Opts::parse("sqe");
+            on.smart = opts.smart;
+            // the context has built lists before (created with the list on, then told the options under test)
+            let mut with = Ctx::new(on, sb).map_err(pf)?;
+            with.type_text("ami").map_err(pf)?;
+            with.finish().map_err(pf)?;
+            with.update(opts, sb).map_err(pf)?;
+            let plain = Ctx::new(opts, sb).map_err(pf)?;
+            for pos in 1..=words[wi].chars().count() {
+                with.finish().map_err(pf)?;
+                plain.finish().map_err(pf)?;
+                for (i, ch) in words[wi].chars().enumerate() {
+                    let a = with.ch(ch, 0).map_err(pf)?;
+                    let b = plain.ch(ch, 0).map_err(pf)?;
+                    if a != b {
+                        return Err(Failure::new("characterless-key-changes-the-word", format!("typed {:?} ({}) with number-pad Enter pressed after {pos} characters: {} but without it {}", words[wi], opts.letters(), a.short(), b.short()), case()));
+                    }
+                    if i + 1 == pos {
+                        let e = with.key(enter, 0, if a.lonely { 0 } else { a.sel.min(255) as u8 }).map_err(pf)?;
+                        st.evals(1);
+                        if e != a {
+                            return Err(Failure::new(
+                                "characterless-key-changes-the-word",
+                                format!("typed {:?} ({}), then number-pad Enter (a key without a character): returned {} instead of what the key before it returned, {}", words[wi].chars().take(pos).collect::<String>(), opts.letters(), e.short(), a.short()),
+                                case(),
+                            ));
+                        }
+                    }
+                }
+            }
+            st.label("characterless-key-inside-a-word");
+            st.nontrivial(hash_of(&("enter", wi, oi)), || json!({"word": words[wi], "opts": opts.letters()}));
+            Ok(())
+        },
+    );
+}
+
 pub fn run(run: &Run) {
+    characterless_key_inside_a_word(run);
     number_pad_keys_are_characters(run);
     commit_then_type(run);
     long_words(run);
